@@ -284,14 +284,30 @@ impl TopologicalSortMachine
                                     currently on */
                                 if indices_in_stack.contains(buffer_index)
                                 {
-                                    let mut target_cycle = vec![];
-                                    for f in stack.iter()
+                                    /*  Only a visited frame in the stack is an ancestor of the current frame.
+                                        An unvisited one is a sibling still waiting its turn: this frame needs
+                                        it first, so move it up to be handled before this frame finishes. */
+                                    match stack.iter().position(|f| f.index == *buffer_index && !f.visited)
                                     {
-                                        target_cycle.push(f.targets[f.sub_index].clone());
-                                    }
-                                    target_cycle.push(frame.targets[frame.sub_index].clone());
+                                        Some(position) =>
+                                        {
+                                            let mut pending_frame = stack.remove(position);
+                                            indices_in_stack.remove(buffer_index);
+                                            pending_frame.sub_index = *sub_index;
+                                            reverser.push(pending_frame);
+                                        },
+                                        None =>
+                                        {
+                                            let mut target_cycle = vec![];
+                                            for f in stack.iter()
+                                            {
+                                                target_cycle.push(f.targets[f.sub_index].clone());
+                                            }
+                                            target_cycle.push(frame.targets[frame.sub_index].clone());
 
-                                    return Err(TopologicalSortError::CircularDependence(target_cycle));
+                                            return Err(TopologicalSortError::CircularDependence(target_cycle));
+                                        },
+                                    }
                                 }
                             }
                         },
